@@ -318,6 +318,7 @@ def oracle(c, obs):
     saved = {}
     nh = 0
     begin_lc = []             # lifecycle of every object when the current outer transaction began
+    hstack = []               # begin_nested handles on the transaction stack, outermost first
     for i, (op, rec) in enumerate(zip(ops, obs)):
         k = op[0]
         code = rec[0]
@@ -332,15 +333,25 @@ def oracle(c, obs):
         if k == NESTED:
             if code == 0:
                 saved[nh] = dict(W)
+                hstack.append(nh)
             nh += 1
-        if k in (FLUSH, FLUSHF, NESTED, COMMIT, LOAD, SETPK) and code in _FAILS and not (k == FLUSHF and op[1] == K_PRE and code == E_EVENT):
+        if k in (FLUSH, FLUSHF) and code in _FAILS and prev is not None and not (k == FLUSHF and op[1] == K_PRE and code == E_EVENT):
             # the flush ran into an error inside its subtransaction
-            if prev is not None and (k in (FLUSH, FLUSHF)):
-                failed_at = i
-                pending_then = [o for o, x in enumerate(prev[1]) if x[0] == 1]
-                # the transaction cannot be used until it is rolled back
-                if rec[2][0] != 1:
-                    return "%s: no transaction after the failed flush" % name
+            failed_at = i
+            pending_then = [o for o, x in enumerate(prev[1]) if x[0] == 1]
+            if rec[2][0] != 1:
+                return "%s: no transaction after the failed flush" % name
+            # the partial effects are gone from the connection at once: rows as at the innermost savepoint
+            # (as committed, without savepoint)
+            if rec[4][0]:
+                exp_rows = saved[hstack[-1]] if hstack else pcomm
+                if W != exp_rows:
+                    return "%s: rows on the connection after the failed flush %s != rows at the %s %s" % (
+                        name, sorted(W.items()), "savepoint" if hstack else "start of the transaction", sorted(exp_rows.items()))
+        if failed_at is not None and failed_at != i and code == 0 and (k == COMMIT or k == TCOMMIT and op[1] in hstack):
+            return "%s: commit succeeded although the flush failure of step %d was not rolled back" % (name, failed_at)
+        if failed_at is not None and failed_at != i and k in (FLUSH, FLUSHF, NESTED) and code == 0 and any(x[0] == 1 or x[0] in (2, 3) and (x[4] or x[5]) for x in prev[1]):
+            return "%s: flush succeeded although the flush failure of step %d was not rolled back" % (name, failed_at)
         if k in (FLUSH, FLUSHF) and code == 0 and prev is not None and failed_at is None:
             L = B._logical(prev)
             if rec[4][0] and W != L:
@@ -350,6 +361,9 @@ def oracle(c, obs):
                 return "%s: still in a transaction" % name
             if W != pcomm:
                 return "%s: rows %s != committed rows %s" % (name, sorted(W.items()), sorted(pcomm.items()))
+            for o, x in enumerate(rec[1]):
+                if x[0] in (1, 2) and (x[4] or x[5]):
+                    return "%s: object %d still modified / marked deleted after the rollback" % (name, o)
             if failed_at is not None:
                 r = _agree(rec, W, name + " after the failed flush of step %d" % failed_at)
                 if r:
@@ -363,15 +377,19 @@ def oracle(c, obs):
                         return "%s: object %d was added in the rolled back transaction (flush of step %d failed) and is not transient after the rollback (lifecycle %d, key %s)" % (
                             name, o, failed_at, x[0], x[1])
             failed_at = None
-        if k == TROLLBACK and code == 0 and failed_at is not None:
-            live_before = prev is not None and op[1] < len(prev[2][2]) and prev[2][2][op[1]] in (0, 1)
-            if op[1] in saved and rec[2][2][op[1]] == 0 and rec[4][0] and W != saved[op[1]] and live_before and prev[2][1]:
-                # only checked when this handle is the innermost savepoint (C33 finding g1 otherwise)
-                pass
-            r = _agree(rec, W, name + " after the failed flush of step %d" % failed_at)
-            if r:
-                return r
-            failed_at = None
+        if k == TROLLBACK and code == 0 and op[1] in hstack:
+            if failed_at is not None:
+                if op[1] == hstack[-1] and rec[4][0] and W != saved[op[1]]:
+                    return "%s: rows %s != rows when the savepoint was taken %s" % (name, sorted(W.items()), sorted(saved[op[1]].items()))
+                r = _agree(rec, W, name + " after the failed flush of step %d" % failed_at)
+                if r:
+                    return r
+                failed_at = None
+            del hstack[hstack.index(op[1]):]
+        if k == TCOMMIT and code == 0 and op[1] in hstack:
+            del hstack[hstack.index(op[1]):]
+        if k in (COMMIT, ROLLBACK, CLOSE) and code == 0:
+            hstack = []
         if k in (COMMIT, CLOSE) and code == 0:
             failed_at = None
         if k in (COMMIT, ROLLBACK, CLOSE) and code == 0:
